@@ -17,7 +17,7 @@
    Denominations: ordinary denoms are 0 <= d < 100; the share denom of pool id is 100 + id.  Definitions only. *)
 From Coq Require Import ZArith List Bool.
 Import ListNotations.
-From Osmo Require Import Base.DecModel C05.Model.
+From Osmo Require Import Base.DecModel Gen.C02_consts C05.Model.
 Open Scope Z_scope.
 
 (* ---------------------------------------------------------------- the pool record *)
@@ -121,7 +121,7 @@ Record gstate := mkG {
   fee_exempt : acct -> bool }. (* concentrated-liquidity UnrestrictedPoolCreatorWhitelist *)
 
 Definition share_denom (id : Z) : Z := 100 + id.
-Definition init_shares : Z := 100 * P18.      (* InitPoolSharesSupply *)
+Definition init_shares : Z := init_shares_mult * 10 ^ one_share_exponent.      (* InitPoolSharesSupply (Gen/C02_consts) *)
 
 Definition with_rs (s : gstate) (r : state GP) : gstate :=
   mkG r (supply s) (next_id s) (direct s) (creation_fee s) (fee_exempt s).
@@ -376,7 +376,7 @@ Fixpoint distinct_keys (l : list (Z * Z)) : bool :=
 (* msg.Validate: 2..8 assets, positive amounts, distinct ordinary denoms (weights / scaling factors / spread factor
    are assumed well-formed: they only matter to the math) *)
 Definition create_valid (assets : list (Z * Z)) : bool :=
-  (2 <=? Z.of_nat (length assets)) && (Z.of_nat (length assets) <=? 8) && coins_ok assets && distinct_keys assets
+  (min_pool_assets <=? Z.of_nat (length assets)) && (Z.of_nat (length assets) <=? max_pool_assets) && coins_ok assets && distinct_keys assets
   && forallb (fun x => (0 <=? fst x) && (fst x <? 100)) assets.
 
 Definition create_pool (s : gstate) (sender : acct) (ext : bool) (assets : list (Z * Z)) (spread exit_fee : Z)
